@@ -81,7 +81,9 @@ def handleJudge (run obs : List Sexp) : String :=
   | some conf =>
     let faults := faultsOf run
     let kindAt (x : Nat) : String := ((faults.find? (fun f => f.1 == x)).map (·.2)).getD ""
-    let c : Cfg := { conf := conf, n := nat1 "n" run, gen := atom1 "c" run == "gen", recovers := true,
+    let construct := atom1 "c" run
+    let c : Cfg := { conf := conf, n := nat1 "n" run, gen := construct == "gen", recovers := true,
+                     groupCancel := construct == "map" || construct == "gen",
                      excluded := if nat1 "excl" run == 1 then [idExcl] else [],
                      outcome := fun x => outcomeOf (kindAt x) x }
     let input := List.range (nat1 "items" run)
@@ -107,11 +109,11 @@ def handleJudge (run obs : List Sexp) : String :=
     let sent := (arg "sent" obs).map flag
     let sentWant := [idRecoveredPanic, idSkip, idEOF, idCanceled, idDeadline, idAbort, idExcl].map (isOpt r)
     let bad : List String :=
-      (if nocancel == 1 then ["the group context was not cancelled after a failure that stops the group"] else []) ++
+      (if nocancel == 1 && c.groupCancel then ["the group context was not cancelled after a failure that stops the group"] else []) ++
       (if v.atMostOnce then [] else ["an item was started twice or is not an input item"]) ++
       (if v.allFinished then [] else ["a started item never finished"]) ++
       (if v.stops then [] else ["a worker started an item after a result it may not continue from"]) ++
-      (if v.bounded then [] else [s!"{afterCount c log} items started after the first cancelling failure returned, workers={c.n}"]) ++
+      (if v.bounded then [] else [s!"{afterStop c log} items started after the first stopping failure returned, workers={c.n}"]) ++
       (if v.complete then [] else ["no finished item stops a worker, yet not every item was processed"]) ++
       (if resNil == r.isNone then [] else [s!"result nil={resNil}, model collector empty={r.isNone}"]) ++
       (if isOk then [] else ["errors.Is(result, injected error) differs from the model's collector"]) ++
